@@ -66,7 +66,16 @@ impl Engine for SignSim {
             }
         }
         let n_ops = r.range(3, cfg.max_ops as u64) as usize;
-        let ops = gen_ops(&mut r, slots.len(), n_ops, crypto);
+        let mut ops = gen_ops(&mut r, slots.len(), n_ops, crypto);
+        // the convenience entry point with a key rcgen generates itself (not reproducible, so it
+        // only appears here, where validity is judged, never where outputs are compared)
+        if crypto && mode != "enum-remote" && r.chance(1, 5) {
+            let names = (0..r.range(0, 3))
+                .map(|_| if r.bool() { crate::recipe::gen_host(&mut r) } else { std::net::Ipv4Addr::from(r.next_u64() as u32).to_string() })
+                .collect();
+            let at = r.range(1, ops.len() as u64) as usize;
+            ops.insert(at, Op::Simple { names });
+        }
         let mut plan = BTreeMap::new();
         let mut rng_fault = None;
         match mode {
@@ -252,6 +261,13 @@ impl Engine for SignSim {
                         v.push(c);
                     }
                 }
+                Op::Simple { names } => {
+                    if !names.is_empty() {
+                        let mut c = t.clone();
+                        c.ops[i] = Op::Simple { names: vec![] };
+                        v.push(c);
+                    }
+                }
                 Op::IssueViaImport { issuer, subject, recipe } => {
                     for rc in recipe.shrink() {
                         let mut c = t.clone();
@@ -308,8 +324,10 @@ fn scenario(t: &SignTrace, plan: &BTreeMap<usize, SignerFault>, rngf: Option<&Rn
     // `call`-th getrandom call counted from there fails (never during key provisioning)
     let mut rng_remaining: Option<u32> = rngf.map(|f| f.call);
     for (i, op) in t.ops.iter().enumerate() {
+        // key generation is not issuance: no RNG fault while rcgen provisions a key of its own
+        let provisioning = matches!(op, Op::Simple { .. });
         let armed = match (rngf, rng_remaining) {
-            (Some(f), Some(rem)) if i >= f.op && sysseam::present() => {
+            (Some(f), Some(rem)) if i >= f.op && sysseam::present() && !provisioning => {
                 sysseam::arm_getrandom(rem, f.kind);
                 true
             }
@@ -438,9 +456,47 @@ fn judge(w: &World, _op: &Op, res: &OpResult, rng_fault_fired: bool, o: &mut Out
 pub fn check_artefact(w: &World, a: &Artefact, o: &mut Outcome) -> Result<(), Fail> {
     o.count("artefacts_checked", 1);
     o.count(&format!("artefact_{}", a.kind), 1);
+    if let Some((alg, spki)) = &a.own_key {
+        // signed by a key rcgen generated itself: shape, identifiers, the certificate carries
+        // the returned key's SPKI, and the signature verifies under it
+        let s = der::split_signed(&a.der).map_err(|e| ("c01-shape".to_string(), format!("{}: {}", a.kind, e.0)))?;
+        for (how, bytes) in &a.alt {
+            if bytes != &a.der {
+                return fail("c01-forms-differ", format!("{}: {} differs from der()", a.kind, how));
+            }
+        }
+        if s.alg.raw != alg.sig_alg_id() {
+            return fail("c01-identifier", format!("generated-key certificate carries signatureAlgorithm {}", hx(s.alg.raw)));
+        }
+        let ch = der::children(s.tbs.content).map_err(|e| ("c01-shape".to_string(), e.0))?;
+        if ch.get(2).map(|c| c.raw) != Some(s.alg.raw) {
+            return fail("c01-inner-identifier", "generated-key certificate: inner AlgorithmIdentifier differs from outer".into());
+        }
+        if ch.get(6).map(|c| c.raw) != Some(spki.as_slice()) {
+            return fail("c01-invalid-signature", "generated-key certificate does not carry the returned key's SubjectPublicKeyInfo".into());
+        }
+        return match openssl_verify(*alg, spki, s.tbs.raw, s.sig) {
+            Ok(true) => {
+                o.count("openssl_verified", 1);
+                o.count("generated_key_certificates", 1);
+                Ok(())
+            }
+            _ => fail("c01-invalid-signature", "OpenSSL rejects the certificate of generate_simple_self_signed under the returned key".into()),
+        };
+    }
     let key = &w.keys[a.signer];
     // clause 1: shape
     let s = der::split_signed(&a.der).map_err(|e| ("c01-shape".to_string(), format!("{}: {}", a.kind, e.0)))?;
+    // what the other accessors hand out is the same artefact
+    for (how, bytes) in &a.alt {
+        if bytes != &a.der {
+            return fail(
+                "c01-forms-differ",
+                format!("{}: {} yields {} bytes (sha {}), der() {} bytes (sha {})", a.kind, how, bytes.len(), simcore::sha256::short(bytes), a.der.len(), simcore::sha256::short(&a.der)),
+            );
+        }
+        o.count("alternative_forms_compared", 1);
+    }
     let n = s.tbs.raw.len();
     o.covered("tbs_len_form", if n < 128 + 2 { 0 } else if n < 256 + 3 { 1 } else if n < 65536 + 4 { 2 } else { 3 });
     // clause 2: identifiers
